@@ -19,12 +19,12 @@ from ..harness import Run, actions_results, main_wrapper
 
 U1 = "00000000-0000-4000-8000-0000000000aa"
 VALUES = ["zqa", "", "x y", 'zq"r', "zq'it", "zq\\back", "2020-01-02", "2020-01-02T03:04:05+00:00", "2020-13-45", "zq-not-a-date", U1, "zqnope", 0, 1, -5, 2, 2.5, 3.0, 1e999, -1e999, "4", "4.5", "inf", "-inf", "nan", "NaN", "Infinity",
-          True, False, "true", "True", "false", "yes", [], ["zqx"], {}, {"zqk": 1}, "b", "B", 3, 2**40, 1e-7]
+          True, False, "true", "True", "false", "yes", [], ["zqx"], {}, {"zqk": 1}, "b", "B", 3, 2**40, 1e-7, 1.0, 0.0]
 
 KINDS = {
     "string": {"type": "string"}, "date": {"type": "string", "format": "date"}, "datetime": {"type": "string", "format": "date-time"}, "uuid": {"type": "string", "format": "uuid"},
     "integer": {"type": "integer"}, "number": {"type": "number"}, "boolean": {"type": "boolean"},
-    "enum_str": {"type": "string", "enum": ["zqa", "b"]}, "enum_int": {"type": "integer", "enum": [1, 2]}, "const": {"const": "zqa"}, "const_int": {"const": 2},
+    "enum_str": {"type": "string", "enum": ["zqa", "b"]}, "enum_int": {"type": "integer", "enum": [1, 2]}, "const": {"const": "zqa"}, "const_int": {"const": 2}, "const_one": {"const": 1}, "const_true": {"const": True}, "const_zero": {"const": 0},
     "union": {"oneOf": [{"type": "integer"}, {"type": "boolean"}]}, "union_date_int": {"anyOf": [{"type": "string", "format": "date"}, {"type": "integer"}]}, "any": {},
 }
 
@@ -116,6 +116,13 @@ def classify(kind: str, v):
         return ("accept", ("str", "zqa")) if v == "zqa" and isinstance(v, str) else ("reject", None)
     if kind == "const_int":
         return ("accept", ("int", 2)) if v == 2 and isinstance(v, int) and not isinstance(v, bool) else ("reject", None)
+    if kind in ("const_one", "const_zero"):
+        c = 1 if kind == "const_one" else 0
+        if isinstance(v, float) and v == c:
+            return "dontcare", None  # 1.0 for the integer const 1: JSON-equal numbers
+        return ("accept", ("int", c)) if type(v) is int and v == c else ("reject", None)
+    if kind == "const_true":
+        return ("accept", ("bool", True)) if v is True else ("reject", None)
     if kind == "union":  # integer | boolean
         if isinstance(v, bool):
             return "accept", ("bool", v)
